@@ -354,6 +354,8 @@ class Alg:
             return self.conv(e["args"][0])
         if k == "ite":
             return sp.Piecewise((self.conv(e["a"]), self.conv(e["c"])), (self.conv(e["b"]), True))
+        if k == "havoc":
+            return self.sym("havoc_" + re.sub(r"\W", "_", e.get("why", "")))
         if k == "index":
             return self.opaque_fn("idx", [self.conv_place(e["e"]), self.conv(e["i"])])
         if k == "block" and len(e["stmts"]) == 1 and e["stmts"][0]["k"] == "expr":
